@@ -61,6 +61,7 @@ type Workload struct {
 	Pool      []string
 	Fns       []string
 	FixedOn   bool // pipeline variant toggle (composition edits)
+	Anonymous bool // P&T templates carry no names (until the composition is migrated to named templates)
 	ConnNS    bool // composition sets writeConnectionSecretsToNamespace
 }
 
@@ -75,6 +76,9 @@ type DrawParams struct {
 	Requirements   bool
 	Conn           bool
 	MaxXR          int
+	// Anonymous: now and then P&T compositions start with anonymous templates
+	// and are migrated to named ones later.
+	Anonymous bool
 	// Contract: workloads for the function-contract check (C04): up to four
 	// steps, context rewrites, credentials, more requirement programs.
 	Contract bool
@@ -219,6 +223,12 @@ func Draw(t *sim.Tape, p DrawParams) *Workload {
 		// the API server rejects it as invalid
 		w.Templates = append(w.Templates, Tmpl{Name: "s1", Kind: "Strict", OptionalMode: true, Readiness: "none", Enabled: t.Next(2) == 0})
 	}
+	if p.Anonymous && !w.Pipeline && t.Next(3) == 0 {
+		w.Anonymous = true
+		for i := range w.Templates {
+			w.Templates[i].Enabled = true
+		}
+	}
 	if p.Conn {
 		w.ConnNS = t.Next(4) > 0
 	}
@@ -283,6 +293,9 @@ func (wl *Workload) Composition() *v1.Composition {
 		base := map[string]any{"apiVersion": "things.example.org/v1", "kind": tm.Kind, "spec": map[string]any{"tag": tm.Name}}
 		b, _ := json.Marshal(base)
 		ct := v1.ComposedTemplate{Name: ptr.To(tm.Name), Base: kruntime.RawExtension{Raw: b}}
+		if wl.Anonymous {
+			ct.Name = nil
+		}
 		ct.Patches = append(ct.Patches, v1.Patch{Type: v1.PatchTypeFromCompositeFieldPath, FromFieldPath: ptr.To("spec.size"), ToFieldPath: ptr.To("spec.size")})
 		if tm.RequireMode {
 			req := v1.FromFieldPathPolicyRequired
@@ -433,6 +446,12 @@ func stepNames(wl *Workload) []string {
 func (w *W) EditComposition(wl *Workload, t *sim.Tape) {
 	if wl.Pipeline {
 		wl.FixedOn = !wl.FixedOn
+	} else if wl.Anonymous {
+		// anonymous templates are associated by position: the only edit is the
+		// documented migration - the same templates, now named
+		if t.Next(2) == 0 {
+			wl.Anonymous = false
+		}
 	} else {
 		i := t.Next(len(wl.Templates))
 		wl.Templates[i].Enabled = !wl.Templates[i].Enabled
